@@ -86,8 +86,8 @@ func ruleFieldNeverSet(pkgs []string) func(c *Ctx, r *Rep, tier string) {
 		errT := types.Universe.Lookup("error").Type()
 		type info struct {
 			reads, sets int
-			readAt     string
-			owner      string
+			readAt      string
+			owner       string
 		}
 		fields := map[*types.Var]*info{}
 		get := func(v *types.Var, owner string) *info {
